@@ -243,8 +243,9 @@ def run(ctx):
                   "startup-sort-by-name", "value-shape", pw.loc(i), "the file list is sorted by name (default comparison)", "sort arguments are " + str(a))
     addl = [l for l in loops(pw) if l["stmt"] is not None and any(pw.pos_of(i)[0] in l["body"] for i in adds)]
     hdrs = [Xpw(pw.nodes[l["stmt"]]["range"]) if pw.nodes[l["stmt"]]["k"] == "rangefor" else " ".join(Xpw(pw.nodes[l["stmt"]][k]) for k in ("init", "c") if k in pw.nodes[l["stmt"]]) for l in addl]
-    ctx.check(len(addl) == 1 and forward_iteration(pw, addl[0]) and "files" in (hdrs[0] if hdrs else "") + loop_header(pw, addl[0]) + "".join(Xpw(x) for x in pw.walk(addl[0]["stmt"]) if pw.nodes[x]["k"] == "ref")[:400],
-              "startup-load-in-order", "loop-shape", pw.loc(), "files are added in list order", "files are not added in list order")
+    if adds:
+      ctx.check(len(addl) == 1 and forward_iteration(pw, addl[0]) and "files" in (hdrs[0] if hdrs else "") + loop_header(pw, addl[0]) + "".join(Xpw(x) for x in pw.walk(addl[0]["stmt"]) if pw.nodes[x]["k"] == "ref")[:400],
+                "startup-load-in-order", "loop-shape", pw.loc(), "files are added in list order", "files are not added in list order")
     # requests reach the main loop in the order the watcher made them (add v1, remove, add v2 must end on the add)
     from .C13 import handoff_queue_fifo
     handoff_queue_fifo(ctx)
